@@ -149,17 +149,22 @@ def _same(a: list, b: list) -> bool:
     return len(a) == len(b) and all(x is y for x, y in zip(a, b))
 
 
-def check_ruler(case, res: Res) -> None:
-    from markdown_it.ruler import Ruler
+class RulerExec:
+    """Executes Ruler operations one at a time against the library and the reference model."""
 
-    r = Ruler()
-    m = Model()
-    compiled = False
-    mutated_after_compile = False
-    raised = False
+    def __init__(self, res: Res) -> None:
+        from markdown_it.ruler import Ruler
 
-    def observe(where: str) -> None:
-        nonlocal compiled
+        self.res = res
+        self.r = Ruler()
+        self.m = Model()
+        self.compiled = False
+        self.mutated_after_compile = False
+        self.raised = False
+        self.i = 0
+
+    def observe(self, where: str) -> None:
+        r, m, res = self.r, self.m, self.res
         for c in CHAINS + ["nochain"]:
             got = r.getRules(c)
             exp = m.chain(c)
@@ -169,9 +174,10 @@ def check_ruler(case, res: Res) -> None:
                     f"{where}: chain {c!r} applies {[getattr(f, 'tag', '?') for f in got]} but active rules are {m.active()} -> expected {[f.tag for f in exp]}",
                 )
                 return
-        compiled = True
+        self.compiled = True
 
-    def reported(where: str) -> bool:
+    def reported(self, where: str) -> bool:
+        r, m, res = self.r, self.m, self.res
         if r.get_all_rules() != m.all():
             res.fail("reported-all-differs-from-model", f"{where}: get_all_rules()={r.get_all_rules()} model={m.all()}")
             return False
@@ -180,7 +186,11 @@ def check_ruler(case, res: Res) -> None:
             return False
         return True
 
-    for i, op in enumerate(case["ops"]):
+    def step(self, op) -> bool:
+        """Returns False when the history must stop (a violation was recorded)."""
+        r, m, res = self.r, self.m, self.res
+        i = self.i
+        self.i += 1
         k = op[0]
         where = f"step {i} {op!r}"
         try:
@@ -188,45 +198,44 @@ def check_ruler(case, res: Res) -> None:
                 fn = _mkfn(f"{op[1]}#{i}")
                 r.push(op[1], fn, {"alt": list(op[2])})
                 m.rules.append({"name": op[1], "enabled": True, "fn": fn, "alt": list(op[2])})
-                mutated_after_compile |= compiled
+                self.mutated_after_compile |= self.compiled
             elif k in ("before", "after"):
                 fn = _mkfn(f"{op[2]}#{i}")
                 idx = m.find(op[1])
                 try:
                     getattr(r, k)(op[1], op[2], fn, {"alt": list(op[3])})
                 except KeyError:
-                    raised = True
+                    self.raised = True
                     if idx != -1:
                         res.fail(f"{k}:unexpected-KeyError", where)
-                        return
+                        return False
                 else:
                     if idx == -1:
                         res.fail(f"{k}:unknown-name-accepted", where)
-                        return
+                        return False
                     m.rules.insert(idx if k == "before" else idx + 1, {"name": op[2], "enabled": True, "fn": fn, "alt": list(op[3])})
-                    mutated_after_compile |= compiled
+                    self.mutated_after_compile |= self.compiled
             elif k == "at":
                 fn = _mkfn(f"{op[1]}@{i}")
                 idx = m.find(op[1])
                 try:
                     r.at(op[1], fn, {"alt": list(op[2])})
                 except KeyError:
-                    raised = True
+                    self.raised = True
                     if idx != -1:
                         res.fail("at:unexpected-KeyError", where)
-                        return
+                        return False
                 else:
                     if idx == -1:
                         res.fail("at:unknown-name-accepted", where)
-                        return
+                        return False
                     m.rules[idx]["fn"] = fn
                     m.rules[idx]["alt"] = list(op[2])
-                    mutated_after_compile |= compiled
+                    self.mutated_after_compile |= self.compiled
             elif k in ("enable", "enableOnly", "disable"):
                 arg, ignore = op[1], op[2]
                 names = [arg] if isinstance(arg, str) else list(arg)
                 before = m.flags()
-                stages = []  # model states after each prefix
                 if k == "enableOnly":
                     for rr in m.rules:
                         rr["enabled"] = False
@@ -245,10 +254,10 @@ def check_ruler(case, res: Res) -> None:
                 try:
                     ret = getattr(r, k)(copy.deepcopy(arg), ignore)
                 except KeyError:
-                    raised = True
+                    self.raised = True
                     if bad is None:
                         res.fail(f"{k}:unexpected-KeyError", where)
-                        return
+                        return False
                     # either atomic (state before) or the documented partial application
                     act = r.get_active_rules()
                     cand_partial = [rr["name"] for rr, f in zip(m.rules, partial) if f]
@@ -260,41 +269,47 @@ def check_ruler(case, res: Res) -> None:
                             rr["enabled"] = f
                     else:
                         res.fail(f"{k}:state-after-raise", f"{where}: active={act}, neither {cand_before} nor {cand_partial}")
-                        return
-                    if compiled:
-                        mutated_after_compile = True
+                        return False
+                    if self.compiled:
+                        self.mutated_after_compile = True
                 else:
                     if bad is not None:
                         res.fail(f"{k}:unknown-name-accepted", f"{where}: no KeyError for {bad!r}")
-                        return
+                        return False
                     if list(ret) != found:
                         res.fail(f"{k}:return-value", f"{where}: returned {ret}, expected {found}")
-                    mutated_after_compile |= compiled
+                    self.mutated_after_compile |= self.compiled
             elif k == "getRules":
                 got = r.getRules(op[1])
                 exp = m.chain(op[1])
-                compiled = True
+                self.compiled = True
                 if not _same(list(got), exp):
                     res.fail("applied-differs-from-reported", f"{where}: chain {op[1]!r} applies {[getattr(f, 'tag', '?') for f in got]}, expected {[f.tag for f in exp]} (active {m.active()})")
-                    return
+                    return False
             elif k == "observe":
-                observe(where)
+                self.observe(where)
         except Exception as e:  # noqa: BLE001
             from ..runner import lib_frame_of
 
             if lib_frame_of(e) is None:
                 raise
             res.fail(f"{k}:unexpected-{type(e).__name__}", f"{where}: {e!r}")
+            return False
+        if not self.reported(where):
+            return False
+        return not res.v
+
+
+def check_ruler(case, res: Res) -> None:
+    ex = RulerExec(res)
+    for op in case["ops"]:
+        if not ex.step(op):
             return
-        if not reported(where):
-            return
-        if res.v:
-            return
-    observe("end of history")
-    res.nt = mutated_after_compile and raised
-    if mutated_after_compile:
+    ex.observe("end of history")
+    res.nt = ex.mutated_after_compile and ex.raised
+    if ex.mutated_after_compile:
         res.cls.append("mutation_after_compile")
-    if raised:
+    if ex.raised:
         res.cls.append("raising_call")
 
 
@@ -458,3 +473,99 @@ def check(case) -> Res:
     else:
         check_facade(case, res)
     return res
+
+
+# --------------------------------------------------------------------------------------------
+# second engine: a Hypothesis rule-based state machine over the same executor (state-dependent
+# generation: names are drawn from the rules that exist at that point of the history)
+
+_LAST_HISTORY: list = []
+
+
+def _machine():
+    from hypothesis import strategies as hst
+    from hypothesis.stateful import RuleBasedStateMachine, invariant, precondition, rule
+
+    alts = hst.lists(hst.sampled_from(CHAINS[1:]), max_size=3, unique=True)
+
+    class RulerMachine(RuleBasedStateMachine):
+        def __init__(self):
+            super().__init__()
+            self.res = Res()
+            self.ex = RulerExec(self.res)
+            self.ops: list = []
+
+        def _do(self, op):
+            self.ops.append(op)
+            _LAST_HISTORY[:] = self.ops
+            self.ex.step(op)
+            assert not self.res.v, self.res.v
+
+        def _known(self, data):
+            names = self.ex.m.all()
+            return data.draw(hst.sampled_from(names)) if names else "a"
+
+        @rule(name=hst.sampled_from(NAMES), alt=alts)
+        def push(self, name, alt):
+            self._do(["push", name, alt])
+
+        @precondition(lambda self: len(self.ex.m.rules) > 0)
+        @rule(data=hst.data(), name=hst.sampled_from(NAMES), alt=alts, where=hst.sampled_from(["before", "after"]), unknown=hst.booleans())
+        def insert(self, data, name, alt, where, unknown):
+            target = data.draw(hst.sampled_from(UNKNOWN)) if unknown and data.draw(hst.booleans()) else self._known(data)
+            self._do([where, target, name, alt])
+
+        @precondition(lambda self: len(self.ex.m.rules) > 0)
+        @rule(data=hst.data(), alt=alts, unknown=hst.booleans())
+        def at(self, data, alt, unknown):
+            target = data.draw(hst.sampled_from(UNKNOWN)) if unknown and data.draw(hst.booleans()) else self._known(data)
+            self._do(["at", target, alt])
+
+        @rule(data=hst.data(), kind=hst.sampled_from(["enable", "enableOnly", "disable"]), ignore=hst.booleans(), as_str=hst.booleans())
+        def switch(self, data, kind, ignore, as_str):
+            pool = (self.ex.m.all() or ["a"]) + UNKNOWN
+            if as_str:
+                arg = data.draw(hst.sampled_from(pool))
+            else:
+                arg = data.draw(hst.lists(hst.sampled_from(pool), max_size=4))
+            self._do([kind, arg, ignore])
+
+        @rule(chain=hst.sampled_from(CHAINS + ["nochain"]))
+        def get_rules(self, chain):
+            self._do(["getRules", chain])
+
+        @invariant()
+        def applied_equals_reported_at_observations(self):
+            # a full observation compiles the chains; do it only sometimes so that histories with
+            # no compiled cache between mutations are generated too
+            if len(self.ops) % 5 == 4:
+                self._do(["observe"])
+
+    return RulerMachine
+
+
+def extra_phase(tier, seed, shard, nshards, coll):
+    from hypothesis import HealthCheck, Phase, settings
+    from hypothesis import seed as hseed
+    from hypothesis.stateful import run_state_machine_as_test
+
+    from ..runner import derive_seed
+
+    n = (400 if tier == "quick" else 20000) // nshards
+    if n <= 0:
+        return
+    machine = hseed(derive_seed(seed, ID, shard, "machine"))(_machine())
+    try:
+        run_state_machine_as_test(
+            machine,
+            settings=settings(
+                max_examples=n, stateful_step_count=40, database=None, deadline=None, derandomize=False,
+                suppress_health_check=list(HealthCheck), report_multiple_bugs=False,
+                phases=[Phase.generate, Phase.shrink],
+            ),
+        )
+        coll.extra["state_machine_examples"] = coll.extra.get("state_machine_examples", 0) + n
+    except AssertionError:
+        # the (shrunk) failing history was replayed last: hand it to the collector as a plain data case
+        coll.run_case({"kind": "ruler", "ops": list(_LAST_HISTORY), "origin": "RuleBasedStateMachine"}, "machine")
+        coll.extra["state_machine_examples"] = coll.extra.get("state_machine_examples", 0) + n
